@@ -14,7 +14,7 @@ version" includes the TTLs.  Versions are coherent zones (`Coherent`: one TTL pe
 to other data, one rdata per singleton type), which is what makes the model's `put` — with the CNAME
 exclusion of `dns.node` and the TTL/singleton rules of `dns.rdataset` — act as plain set insertion.
 
-* convergence: `axfr_converges`, `axfr_converges_with_out_of_zone`, `ixfr_converges`, `ixfr_denotes`, `axfr_style_ixfr`, `up_to_date_noop`,
+* convergence: `axfr_converges`, `axfr_ignores_serial`, `axfr_converges_with_out_of_zone`, `ixfr_converges`, `ixfr_denotes`, `axfr_style_ixfr`, `up_to_date_noop`,
   `udp_ixfr`, `usetcp_retry_converges` (+ `query_of_zone`, `query_of_supplied`, `udp_outcome_final`);
 * atomicity: `error_implies_unapplied` (unconditional), `early_exit_leaves_zone`, `exit_never_commits`; `repair_changed_only_d11`,
   `before_repair_surplus_was_committed` (historical record);
@@ -68,6 +68,15 @@ theorem axfr_converges_with_out_of_zone (o : Name) (v : Version) (z0 : Zone) (se
   obtain ⟨s', hf, hd, hz⟩ := axfr_flat_ooz o v z0 ser hb hco
   rw [both_variants (run_of_flat rfl hc hf hd) true]
   exact ⟨rfl, hz, serial_of_equiv (v := ⟨v.soa, inZone o v.body⟩) hz (bodyOk_inZone hb)⟩
+
+/-- **An AXFR is unconditional: it ignores any serial handed to `Inbound`.**  Whatever serial the caller
+passes with `rdtype=AXFR` — its local one, `0` as the classic `dns.query.xfr` route always does, one equal
+to, behind (RFC 1982) or more than 2^31 away from the server's — exception and zone are those of
+`serial=None`, for every sequence of messages; so `axfr_converges` and every AXFR fault theorem hold for
+every `ser`. -/
+theorem axfr_ignores_serial (origin : Option Name) (ser : Option Nat) (udp : Bool) (z0 : Zone) (msgs : List Msg) :
+    run true ⟨origin, axfrType, ser, udp⟩ z0 msgs = run true ⟨origin, axfrType, none, udp⟩ z0 msgs :=
+  run_axfr_serial true origin ser udp z0 msgs
 
 /-- **IXFR converges**, chains of any length, any division into messages.  `v0 :: vs` is the chain of zone
 versions from the one we hold to the server's current one; the response carries, per RFC 1995, the
@@ -1002,6 +1011,16 @@ example :
     let recs := ixfrStream exO exV0.soa (diffSteps exV0 [exV1, exV2])
     let d := drive true ⟨some exO, ixfrType, some 4294967294, false⟩ (zoneOf exO exV0) [⟨0, [], recs.take 2⟩, ⟨0, [], (recs.drop 2).take 3⟩] false
     d.err = none ∧ d.done = false ∧ d.zone = zoneOf exO exV0 := by
+  decide
+
+/-- an AXFR into a zone whose serial equals the server's (or is "ahead" of it, or 0 against a serial above
+2^31) completes all the same -/
+example :
+    let v : Version := ⟨⟨⟨2147483653, 0⟩, 300⟩, [⟨exO, 2, 300, [⟨0, 1⟩]⟩]⟩
+    let m : Msg := ⟨0, [], axfrStream exO v⟩
+    (run true ⟨some exO, axfrType, some 2147483653, false⟩ [] [m]).err = none ∧
+    (run true ⟨some exO, axfrType, some 2147483654, false⟩ [] [m]).err = none ∧
+    (run true ⟨some exO, axfrType, some 0, false⟩ [] [m]) = (run true ⟨some exO, axfrType, none, false⟩ [] [m]) := by
   decide
 
 /-- an incoherent "version" (A next to a CNAME) is not a counterexample: `Coherent` refuses it -/
